@@ -21,7 +21,7 @@ META = {
             'by context (fieldset/legend, second form, radio group, iframe); distinct by recipe',
     'assumptions': ['form-in-form trees are excluded from the :default/:indeterminate definition oracle (the suite pins a '
                     'browser-imitating bail-out); the laws are still checked there',
-                    'dir=auto / bdi / text-input direction is checked through the partition law only'],
+                    'bdi / text-input direction and dir=auto without a strong character are checked through the partition law only; dir=auto with a strong character in HTML-only subtrees has a definition check'],
 }
 
 PSEUDOS = tuple(H.DEFS)
@@ -104,6 +104,11 @@ def evaluate(case):
         d = H.inherited_dir(ctx, e)
         if d and ((id(e) in ltr) != (d == 'ltr') or (id(e) in rtl) != (d == 'rtl')):
             fails.append(('definition-dir-inheritance', f'{str(e)[:100]!r} should be {d} (explicit/inherited dir) in {mk!r}'))
+            break
+    for e in html_els:
+        d = H.auto_dir(ctx, e)
+        if d and ((id(e) in ltr) != (d == 'ltr') or (id(e) in rtl) != (d == 'rtl')):
+            fails.append(('definition-dir-auto', f'{str(e)[:140]!r} (dir=auto) should be {d} by its first strong character in {mk!r}'))
             break
     # iframe isolation
     if case['tree']['kind'] in ('html.parser', 'html-api'):
